@@ -209,7 +209,7 @@ pub fn doc_stream(run: &mut Run, rng: &mut Rng, n: usize) {
     }
     for t in &["-0", "-0.0", "-0e0", "0e99999999999", "0.0e-99999999999", "1e99999999999", "-1e99999999999", "1e-99999999999", "-1e-99999999999", "1e2147483647", "1e2147483648", "1e-2147483648", "1e-2147483649",
         "1e308", "1e309", "1.7976931348623157e308", "1.7976931348623159e308", "17976931348623157e292", "17976931348623159e292", "179769313486231580793728971405303415079934132710037826936173778980444968292764750946649017977587207096330286416692887910946555547851940402630657488671505820681908902000708383676273854845817711531764475730270069855571366959622842914819860834936475292719074168444365510704342711559699508093042880177904174497791",
-        "2.2250738585072011e-308", "4.9e-324", "2.4703282292062327e-324", "5e-324", "1e-323", "1e-324", "1e-400", "123e-400", "18446744073709551615", "18446744073709551616", "18446744073709551616.5", "18446744073709551615.5", "1844674407370955161.6",
+        "2.2250738585072011e-308", "4.9e-324", "2.4703282292062327e-324", "5e-324", "1e-323", "1e-324", "1e-400", "123e-400", "18446744073709551615", "18446744073709551616", "18446744073709551616.5", "18446744073709551615.5", "1844674407370955161.6", "239.21e-27", "46348.619e-20", "97045.26e25", "7.038531e-26", "{\"x\":239.21e-27}",
         "-9223372036854775808", "-9223372036854775809", "-18446744073709551615", "-18446744073709551616", "9007199254740993", "9007199254740993.0", "0.1", "0.3", "1e23", "8.5e22", "4.35", "0.000001", "123456789012345678901234567890e-10", "0.00000000000000000000000000000000000000000000000000000000000000000000000000000000000000000000000000001e100",
         "{\"k\":1,\"k\":2}", "{\"k\":1,\"j\":3,\"k\":[2],\"j\":{\"k\":null,\"k\":true}}", "{\"a\\u0062\":1,\"ab\":2}", "{\"\":0,\"\":1}", "\u{feff}1", " \t\r\n1\n", "\"\\ud83d\\ude00\"", "\"\\ud800\"", "\"é\\u00e9\"", "[1,[2,[3,{\"a\":[]}]]]"] {
         emit_doc(run, t, "fixed");
